@@ -24,11 +24,13 @@ PROPS_FILE = "Props/C17.v"
 MODEL_FILES = ["Model/HyperV.v", "Spec/HyperV.v"]
 META = {
     "category": "proof",
-    "text": "Coq theorems: entry / value / key-table / link round trips (decode after encode is the stored tree for "
-            "every tree, every distribution of entries over key tables, every order, free entries anywhere, inline and "
-            "file-object storage), highest-sequence header and key table are the active ones, free entries are ignored, "
-            "the entry walk and the (repaired) object-table worklist terminate on arbitrary bytes; the model is tied to "
-            "hyperv.py by generated layouts/enums/literals and by differential correspondence on generated files.",
+    "text": "Coq theorems: entry / value / key-table / link round trips composed up to whole files with one object table "
+            "(decode after encode is the stored tree for every tree, every distribution of entries over key tables, every "
+            "order, free entries anywhere, inline and file-object storage, competing tables with lower sequence numbers), "
+            "highest-sequence header and key table are the active ones, free entries are ignored, and the whole decode "
+            "(entry walk, repaired object-table worklist, as_dict) terminates on arbitrary bytes; the model is tied to "
+            "hyperv.py by generated layouts/enums/literals and by differential correspondence on generated files, a "
+            "malformed stream and the two real samples.",
     "design_ref": "DESIGN.md §6 C17 (+ §7 row 14 for the C11 worklist)",
     "note": "Trusted: Coq kernel; hand-written Model/HyperV.v validated against hyperv.py on the generated files, the "
             "malformed stream and the two real samples; Gen/{Consts,Layouts,Enums,HyperVLits}.v from the translator; "
